@@ -2551,8 +2551,8 @@ struct Gr2Totem : public HasNoVoidSpecialization {
     eid_t* edges      = (eid_t*)malloc(sizeof(vid_t) * edge_count);
     weight_t* weights = (weight_t*)malloc(sizeof(vid_t) * edge_count);
     memset(nodes, 0, sizeof(vid_t) * (vertex_count + 1));
-    memset(edges, 0, sizeof(vid_t) * eid_size);
-    memset(weights, 0, sizeof(vid_t) * eid_size);
+    memset(edges, 0, sizeof(vid_t) * edge_count);
+    memset(weights, 0, sizeof(vid_t) * edge_count);
     vid_t vid = 0;
     eid_t eid = 0;
 
